@@ -25,8 +25,8 @@ func runC17(r *hk.Run) {
 	r.CheckFn = "c17_check"
 	r.ShardSize = 80
 	r.Rule = "requests of the real client to a local net/http origin. Kinds: url-encoded forms (plain, ordered, client+request level, preset content types), multipart (0-5 files by path / bytes / reader / custom upload, sizes around 512 B and 32 KiB, names needing quoting, custom boundaries, forced chunked, failing files), marshalled JSON/XML values, raw bodies, GET/HEAD/OPTIONS with AllowGetMethodPayload on/off, upload and download callbacks with intervals 0 / 1 ms / 1 h, plus the stdlib functions the code relies on (QueryEscape/Unescape, ParseQuery, %q, escapeQuotes, SetBoundary/FormDataContentType) and the progress wrappers driven directly. Non-trivial: every end-to-end exchange; table cases whose output differs from the input; progress scripts with more than one event. Distinct by canonical input."
-	// hk.NewRand(seed) starts the splitmix stream at seed*gamma: consecutive seeds give the same stream
-	// shifted by one draw.  Spread the seeds far apart so that runs with different seeds do not overlap.
+	// hk.NewRand(seed) used to start the splitmix stream at seed*gamma (consecutive seeds = the same stream
+	// shifted by one draw; hk scrambles the seed since c8e3218).  The spreading is kept: harmless.
 	rng := hk.NewRand(r.Seed*1000003001 + 17)
 	o := startOrigin()
 	defer o.close()
